@@ -6,12 +6,23 @@ import ESV.Comp.CgLabel
 namespace ESV.Comp
 open ESV ESV.Beh
 
+/-- macro calls are pieces: for the compiled macros `cx.cm` against the macros `cx.sm` of the source, at expansion depth `fuel` -/
+def MacOK (cx : Cx) (fuel : Nat) : Prop := ∀ (name : String) (args : List Param) (env : Src.Env), EnvOK cx env →
+  PM cx (macroStmt cx.cm name args) (fun k b => Src.tr fuel cx.sm env (.macroCall name (convParams args)) k b) env
+
+/-- without compiled macros no macro call compiles -/
+theorem macOK_nil (cx : Cx) (fuel : Nat) (h : cx.cm = []) : MacOK cx fuel := by
+  intro name args env _ s items s' hr
+  rw [h] at hr
+  simp [macroStmt, fail_ok] at hr
+
 section main
-variable (cx : Cx) (fuel : Nat) (lv : Nat)
+variable (cx : Cx) (fuel : Nat) (lv : Nat) (hM : MacOK cx fuel)
+include hM
 
 mutual
 theorem cStmt_c : ∀ (st : Stmt) (lb : Nat), cgStmt lv st = true → (∀ n ∈ mlStmt st, n ∈ cx.defs) → ∀ (env : Src.Env), EnvOK cx env →
-    PM cx (cStmt [] lb st) (fun k b => Src.tr fuel [] env (toSrcStmt st) k b) env
+    PM cx (cStmt cx.cm lb st) (fun k b => Src.tr fuel cx.sm env (toSrcStmt st) k b) env
   | .op n ps, lb, hg, hu, env, he => simple_pm cx fuel _ lb (by simpa [cgStmt] using hg) env he
   | .ret, lb, _, hu, env, he => by
     simp only [cStmt, toSrcStmt]
@@ -61,10 +72,12 @@ theorem cStmt_c : ∀ (st : Stmt) (lb : Nat), cgStmt lv st = true → (∀ n ∈
     simp only [cStmt, toSrcStmt]
     exact for_pm cx fuel env he lb hd init inc body _ _ _ hg.1.1.1.2 (simple_c cx fuel init _ hg.1.1.2 env he)
       (simple_c cx fuel inc _ hg.1.2 env he) (fun env' he' => cStmts_c body _ hg.2 (fun n hn => hu n (by simp [mlStmt, mlStmts, mlElifs, mlCases, hn])) env' he')
-  | .macroCall .., _, hg, hu, _, _ => by simp [cgStmt] at hg
+  | .macroCall name args, _, _, _, env, he => by
+    simp only [cStmt, toSrcStmt]
+    exact hM name args env he
 
 theorem cStmts_c : ∀ (ss : Stmts) (lb : Nat), cgStmts lv ss = true → (∀ n ∈ mlStmts ss, n ∈ cx.defs) → ∀ (env : Src.Env), EnvOK cx env →
-    PM cx (cStmts [] lb ss) (fun k b => Src.trStmts fuel [] env (toSrcStmts ss) k b) env
+    PM cx (cStmts cx.cm lb ss) (fun k b => Src.trStmts fuel cx.sm env (toSrcStmts ss) k b) env
   | .nil, lb, _, hu, env, he => by
     intro s items s' h
     simp only [cStmts, pure_ok, Prod.mk.injEq] at h
@@ -84,7 +97,7 @@ theorem cStmts_c : ∀ (ss : Stmts) (lb : Nat), cgStmts lv ss = true → (∀ n 
     simp only [toSrcStmts]; rw [Src.trStmts]
 
 theorem cElifsA_c : ∀ (es : Elifs) (lb : Nat), cgElifs lv es = true → (∀ n ∈ mlElifs es, n ∈ cx.defs) → ∀ (env : Src.Env), EnvOK cx env →
-    EAC cx fuel env (synOf es) (cElifsA [] lb es)
+    EAC cx fuel env (synOf es) (cElifsA cx.cm lb es)
   | .nil, lb, _, hu, env, he => by
     intro E s0 s as s' _ h
     simp only [cElifsA, pure_ok, Prod.mk.injEq] at h
@@ -102,7 +115,7 @@ theorem cElifsA_c : ∀ (es : Elifs) (lb : Nat), cgElifs lv es = true → (∀ n
     exact ⟨e1.trans e2, .cons (ea.mono e2.3) er⟩
 
 theorem cElifsB_c : ∀ (es : Elifs) (lb : Nat), cgElifs lv es = true → (∀ n ∈ mlElifs es, n ∈ cx.defs) → ∀ (env : Src.Env), EnvOK cx env →
-    EBC cx fuel env (synOf es) (cElifsB [] lb es)
+    EBC cx fuel env (synOf es) (cElifsB cx.cm lb es)
   | .nil, lb, _, hu, env, he => by
     intro E s0 sA as hall s late s' _ _ h
     cases hall
@@ -142,7 +155,7 @@ theorem cElifsB_c : ∀ (es : Elifs) (lb : Nat), cgElifs lv es = true → (∀ n
         simp only [elifsBack, backOf, patchNone_append, hbk, hn]
         cases neg <;> rfl
 theorem cStmts_falls : ∀ (ss : Stmts) (lb : Nat), 0 ≤ fuel → ∀ (env0 : Src.Env), EnvOK cx env0 → cgStmts lv ss = true → (∀ n ∈ mlStmts ss, n ∈ cx.defs) → endsFlowStmts ss = true →
-    ∀ (s : St) (ops : List LItem) (s' : St), cStmts [] lb ss s = .ok (ops, s') → falls ops = false
+    ∀ (s : St) (ops : List LItem) (s' : St), cStmts cx.cm lb ss s = .ok (ops, s') → falls ops = false
   | .nil, lb, _, _, _, _, _, he => by simp [endsFlowStmts] at he
   | .cons st .nil, lb, _, _, _, hg, hu, he => by
     intro s ops s' h
@@ -163,13 +176,13 @@ theorem cStmts_falls : ∀ (ss : Stmts) (lb : Nat), 0 ≤ fuel → ∀ (env0 : S
     simp only [Prod.mk.injEq] at h3
     obtain ⟨rfl, rfl⟩ := h3
     have pA := cStmt_c st lb hg.1 (fun n hn => hu n (by simp [mlStmts, hn])) env0 he0 _ _ _ h1
-    have hne : bb ≠ [] := cStmts_cons_ne lv st2 r _ hg.2.1 _ _ _ h2
+    have hne : bb ≠ [] := cStmts_cons_ne cx.cm lv st2 r _ hg.2.1 _ _ _ h2
     rw [falls_append a bb hne pA.last]
     exact cStmts_falls (.cons st2 r) _ hf0 env0 he0 (by simp [cgStmts, hg.2.1, hg.2.2]) (fun n hn => hu n (by
       simp only [mlStmts, List.mem_append] at hn ⊢; exact .inr hn)) he _ _ _ h2
 
 theorem cCases_c : ∀ (cs : Cases) (lb : Nat) (sw : String) (nf : Bool), cgCases lv sw nf cs = true → (∀ n ∈ mlCases cs, n ∈ cx.defs) →
-    CasesC cx fuel sw nf cs (fun endL bps st => cCases [] lb endL cs bps st)
+    CasesC cx fuel sw nf cs (fun endL bps st => cCases cx.cm lb endL cs bps st)
   | .nil, lb, sw, nf, _, hu => by
     intro env he endL bps st s st' s' _ _ _ h
     simp only [cCases, pure_ok, Prod.mk.injEq] at h
@@ -222,7 +235,7 @@ theorem cCases_c : ∀ (cs : Cases) (lb : Nat) (sw : String) (nf : Bool), cgCase
       simp only [toSrcCases]
       exact sw_default cx fuel env he endL s.loops s.cases st.waiting hs st.defaultOps d1 sL eB ops sa sb (.cons b0 br) n0 hP la ca ws
         (hsb.trans e2.3) hR
-        (fun k nt b => trCases_nodefault fuel (brkEnv env k) sw r k nt b (countDefaults_zero r hcr)) FI
+        (fun k nt b => trCases_nodefault fuel cx.sm (brkEnv env k) sw r k nt b (countDefaults_zero r hcr)) FI
   | .cons false n ps body r, lb, sw, nf, hg, hu => by
     intro env he endL bps st s st' s' hb hw hnd h
     obtain ⟨hnm, hlx, hgb, hgr⟩ := cgCases_cons hg
@@ -288,14 +301,14 @@ theorem cCases_c : ∀ (cs : Cases) (lb : Nat) (sw : String) (nf : Bool), cgCase
         simp only [toSrcCases]
         have := sw_case cx fuel env he endL s.loops s.cases st.waiting hs st.defaultOps d1 sL eB ops sa sb (.cons b0 br) n0 bp htest hP la ca ws
           (hsb.trans e2.3) hR
-          (fun hh k nt b => trCases_nodefault fuel (brkEnv env k) sw r k nt b (countDefaults_zero r (hcr hh))) FI
+          (fun hh k nt b => trCases_nodefault fuel cx.sm (brkEnv env k) sw r k nt b (countDefaults_zero r (hcr hh))) FI
         simpa [caseName, hbn, hbp] using this
       · -- folded: the body is a single exit statement, and nothing falls into its block
         have hlx' : loneExit (.cons b0 br) = true := by
           cases hq : loneExit (.cons b0 br) with
           | true => rfl
           | false =>
-            have : loneJump ops = none := cStmts_ret lv (.cons b0 br) lb hgb hq _ _ _ hrun
+            have : loneJump ops = none := cStmts_ret cx.cm lv (.cons b0 br) lb hgb hq _ _ _ hrun
             rw [hlone] at this; cases this
         have hnf : nf = true := by
           rcases hlx with h0 | h0 | h0
@@ -313,7 +326,7 @@ theorem cCases_c : ∀ (cs : Cases) (lb : Nat) (sw : String) (nf : Bool), cgCase
         simp only [toSrcCases]
         have := (sw_fold cx fuel env he endL s.loops s.cases st.waiting hs st.defaultOps d1 l eB ops sa sb (.cons b0 br) n0 bp htest hlone hP la ca ws
           (hsb.trans e2.3) hR
-          (fun hh k nt b => trCases_nodefault fuel (brkEnv env k) sw r k nt b (countDefaults_zero r (hcr hh)))).weaken
+          (fun hh k nt b => trCases_nodefault fuel cx.sm (brkEnv env k) sw r k nt b (countDefaults_zero r (hcr hh)))).weaken
           (FI := FI) (fun hf => hFI hnf hf)
         simpa [caseName, hbn, hbp] using this
 
